@@ -41,6 +41,13 @@ Proof.
   intros plan grow. exact (asafe_sound _ _ _ plan (oom_dict_transient_safe grow)).
 Qed.
 
+Lemma oom_thm_dict_ratio : forall (plan : nat -> bool) (grow : bool),
+  let r := arun_plan plan (oom_dict_ratio_skel grow) in
+  (oom_val r = OomFail /\ oom_live r = 0%Z) \/ (oom_val r = OomOkCorrect /\ oom_live r = 0%Z).
+Proof.
+  intros plan grow. exact (asafe_sound _ _ _ plan (oom_dict_transient_safe grow)).
+Qed.
+
 Lemma oom_thm_dict_decode : forall (plan : nat -> bool),
   let r := arun_plan plan oom_dict_decode_skel in
   (oom_val r = OomFail /\ oom_live r = 0%Z) \/ (oom_val r = OomOkCorrect /\ oom_live r = 1%Z).
@@ -74,6 +81,13 @@ Lemma oom_thm_float_encode : forall (plan : nat -> bool),
   (oom_val r = OomFail /\ oom_live r = 0%Z) \/ (oom_val r = OomOkCorrect /\ oom_live r = 0%Z).
 Proof.
   intros plan . exact (asafe_sound _ _ _ plan oom_float_encode_safe).
+Qed.
+
+Lemma oom_thm_float_encode_auto : forall (plan : nat -> bool),
+  let r := arun_plan plan oom_float_encode_auto_skel in
+  (oom_val r = OomFail /\ oom_live r = 0%Z) \/ (oom_val r = OomOkCorrect /\ oom_live r = 0%Z).
+Proof.
+  intros plan. exact (asafe_sound _ _ _ plan oom_float_encode_safe).
 Qed.
 
 Lemma oom_thm_float_decode : forall (plan : nat -> bool) (has_normal : bool),
